@@ -971,3 +971,242 @@ func TestVerifBoundedHistories(t *testing.T) {
 }
 
 func hbP(s string) *string { return &s }
+
+// ---- C09: the integrity checker on corrupted databases ------------------------------------------------------------
+//
+// Bounded stand-in for the clauses of C09 that are not claimed as proved (a consistent database yields no report; a
+// corrupted one yields a report; one fix run repairs every repairable inconsistency, so that an immediate re-check is
+// clean and the indexes again mirror the entities). A consistent database is built from a random model state, a random
+// subset of corruptions of the supported, repairable classes is applied directly to the buckets, and then: the check
+// run must report and must not write, one fix run over all stores must leave a database on which a check run reports
+// nothing and which is, key by key, the database built freshly from the same entities.
+
+func hbRandomModel(rng *rand.Rand, personIds, teamIds, noteIds []string) *hbModel {
+	m := newHbModel()
+	for _, t := range teamIds {
+		if rng.Intn(4) != 0 {
+			m.teams[t] = true
+		}
+	}
+	names := []string{"ann", "bob", "an", "cy", "di"}
+	nicks := []*string{nil, hbP("k1"), hbP("k2"), hbP("k3"), nil}
+	tagSets := [][]string{{}, {"x"}, {"y"}, {"x", "y"}, {"x", "xy"}, {"y", "z"}}
+	badges := []string{"b1", "b2", "b3"}
+	for i, id := range personIds {
+		if rng.Intn(4) == 0 {
+			continue
+		}
+		p := &hbMP{name: names[i%len(names)], tags: hbNorm(tagSets[rng.Intn(len(tagSets))])}
+		if k := nicks[rng.Intn(len(nicks))]; k != nil && !m.conflict(id, "\x00", k, nil) {
+			p.nick = k
+		}
+		if ts := hbSorted(m.teams); len(ts) > 0 && rng.Intn(3) != 0 {
+			p.team = hbP(ts[rng.Intn(len(ts))])
+		}
+		if rng.Intn(3) == 0 {
+			p.vip, p.level, p.badge = true, 7, badges[i%len(badges)]
+		}
+		m.people[id] = p
+	}
+	for id := range m.people {
+		for t := range m.teams {
+			if rng.Intn(3) == 0 {
+				m.links[[2]string{id, t}] = true
+			}
+			if rng.Intn(4) == 0 {
+				m.rc[[2]string{id, t}] = int32(1 + rng.Intn(2))
+			}
+		}
+	}
+	alive := func() []string {
+		var s []string
+		for id := range m.people {
+			s = append(s, id)
+		}
+		sort.Strings(s)
+		return s
+	}()
+	for _, n := range noteIds {
+		if len(alive) > 0 && rng.Intn(2) == 0 {
+			m.notes[n] = alive[rng.Intn(len(alive))]
+		}
+	}
+	return m
+}
+
+func hbCheckAll(w *hbWorld, fix bool) (reports []string, err error) {
+	err = w.db.Update(func(tx *bbolt.Tx) error {
+		ctx := NewTxMutateContext(nil, tx)
+		sink := func(e error, fixed bool) { reports = append(reports, fmt.Sprintf("%v (fixed=%v)", e, fixed)) }
+		for _, s := range []interface {
+			CheckIntegrity(ctx MutateContext, fix bool, errorSink func(err error, fixed bool)) error
+		}{w.people, w.vips, w.teams, w.notes} {
+			if e := s.CheckIntegrity(ctx, fix, sink); e != nil {
+				return e
+			}
+		}
+		return nil
+	})
+	return
+}
+
+func TestVerifBoundedIntegrity(t *testing.T) {
+	seed, _ := strconv.Atoi(os.Getenv("VERIF_SEED"))
+	cases := 150
+	if os.Getenv("VERIF_BOUNDED_LEVEL") == "thorough" {
+		cases = 2500
+	}
+	personIds := []string{"p1", "p2", "p10"}
+	teamIds := []string{"t1", "t2"}
+	noteIds := []string{"n1", "n2"}
+	fails, applied := 0, 0
+	fail := func(format string, args ...interface{}) {
+		fails++
+		if fails <= 12 {
+			fmt.Printf("BOUNDED-FAIL %s\n", fmt.Sprintf(format, args...))
+		}
+	}
+	tid := func(s string) []byte { return PrependFieldType(TypeString, []byte(s)) }
+	for c := 0; c < cases && fails == 0; c++ {
+		rng := rand.New(rand.NewSource(int64(seed)*7919 + int64(c)))
+		r := &hbRun{t: t, m: hbRandomModel(rng, personIds, teamIds, noteIds), fails: &fails}
+		w := r.fresh()
+		r.w = w
+		m := r.m
+		if reports, err := hbCheckAll(w, false); err != nil || len(reports) > 0 {
+			fail("case %d: a consistent database is reported as inconsistent: %v (err %v)", c, reports, err)
+			w.close()
+			break
+		}
+		var people, teams []string
+		for id := range m.people {
+			people = append(people, id)
+		}
+		sort.Strings(people)
+		teams = hbSorted(m.teams)
+		var done []string
+		err := w.db.Update(func(tx *bbolt.Tx) error {
+			n := 1 + rng.Intn(3)
+			for tries := 0; len(done) < n && tries < 40; tries++ {
+				if len(people) == 0 {
+					break
+				}
+				id := people[rng.Intn(len(people))]
+				p := m.people[id]
+				switch rng.Intn(11) {
+				case 0: // unique index: entry missing
+					if b := Path(tx, "hb", "indexes", "hbpeople", "name"); b != nil && b.Delete([]byte(p.name)) == nil {
+						done = append(done, "name index entry of "+id+" deleted")
+					}
+				case 1: // unique index: entry for a value nobody holds
+					if b := Path(tx, "hb", "indexes", "hbpeople", "name"); b != nil && b.Put([]byte("zzz"), []byte(id)) == nil {
+						done = append(done, "stale name index entry zzz -> "+id)
+					}
+				case 2: // unique index: entry points to another entity
+					if len(people) > 1 {
+						other := people[(rng.Intn(len(people)-1)+1+sort.SearchStrings(people, id))%len(people)]
+						if b := Path(tx, "hb", "indexes", "hbpeople", "name"); other != id && b != nil && b.Put([]byte(p.name), []byte(other)) == nil {
+							done = append(done, "name index entry of "+id+" points to "+other)
+						}
+					}
+				case 3: // set index: entity missing under one of its values
+					if len(p.tags) > 0 {
+						tg := p.tags[rng.Intn(len(p.tags))]
+						if b := Path(tx, "hb", "indexes", "hbpeople", "tags", tg); b != nil && b.Delete(tid(id)) == nil {
+							done = append(done, "set index entry "+tg+"/"+id+" deleted")
+						}
+					}
+				case 4: // set index: entity listed under a value it does not have
+					has := false
+					for _, tg := range p.tags {
+						if tg == "w" {
+							has = true
+						}
+					}
+					if !has {
+						if b := GetOrCreatePath(tx, "hb", "indexes", "hbpeople", "tags", "w"); !b.HasError() && b.Put(tid(id), nil) == nil {
+							done = append(done, "stale set index entry w/"+id)
+						}
+					}
+				case 5: // set index: a value key without entries
+					if b := GetOrCreatePath(tx, "hb", "indexes", "hbpeople", "tags", "v"); !b.HasError() {
+						done = append(done, "empty set index key v")
+					}
+				case 6: // set index: a whole value key missing
+					if len(p.tags) > 0 {
+						tg := p.tags[rng.Intn(len(p.tags))]
+						if b := Path(tx, "hb", "indexes", "hbpeople", "tags"); b != nil && b.DeleteBucket([]byte(tg)) == nil {
+							done = append(done, "set index key "+tg+" deleted")
+						}
+					}
+				case 7: // fk: back-reference missing
+					if p.team != nil {
+						if b := Path(tx, "hb", "hbteams", *p.team, "members"); b != nil && b.Delete(tid(id)) == nil {
+							done = append(done, "back-reference "+*p.team+"/"+id+" deleted")
+						}
+					}
+				case 8: // fk: back-reference of an entity that references another team (or none)
+					if len(teams) > 0 {
+						tm := teams[rng.Intn(len(teams))]
+						if p.team == nil || *p.team != tm {
+							if b := GetOrCreatePath(tx, "hb", "hbteams", tm, "members"); !b.HasError() && b.Put(tid(id), nil) == nil {
+								done = append(done, "stale back-reference "+tm+"/"+id)
+							}
+						}
+					}
+				case 9: // link: one side missing
+					for k := range m.links {
+						if k[0] == id {
+							if b := Path(tx, "hb", "hbteams", k[1], "followed"); b != nil && b.Delete(tid(id)) == nil {
+								done = append(done, "link "+id+"->"+k[1]+" lost its far side")
+							}
+							break
+						}
+					}
+				case 10: // link: only one side present
+					if len(teams) > 0 {
+						tm := teams[rng.Intn(len(teams))]
+						if !m.links[[2]string{id, tm}] {
+							if b := GetOrCreatePath(tx, "hb", "hbpeople", id, "follows"); !b.HasError() && b.Put(tid(tm), nil) == nil {
+								done = append(done, "one-sided link "+id+"->"+tm)
+								m.links[[2]string{id, tm}] = true // the repair completes the link (the near side is the evidence)
+							}
+						}
+					}
+				}
+			}
+			return nil
+		})
+		if err != nil {
+			fail("case %d: corrupting failed: %v", c, err)
+		}
+		if len(done) == 0 {
+			w.close()
+			continue
+		}
+		applied++
+		before := strings.Join(hbDump(w.db), "\n")
+		reports, err := hbCheckAll(w, false)
+		if err != nil || len(reports) == 0 {
+			fail("case %d: corruptions %v are not reported in check mode (err %v)", c, done, err)
+		}
+		if strings.Join(hbDump(w.db), "\n") != before {
+			fail("case %d: the check run changed the database (%v)", c, done)
+		}
+		if _, err := hbCheckAll(w, true); err != nil {
+			fail("case %d: the fix run failed: %v (%v)", c, err, done)
+		}
+		if again, err := hbCheckAll(w, false); err != nil || len(again) > 0 {
+			fail("case %d: after one fix run of %v the re-check still reports %v (err %v)", c, done, again, err)
+		}
+		r.trace = done
+		r.compareWithFresh(fmt.Sprintf("case %d: after one fix run", c), nil)
+		r.check()
+		w.close()
+	}
+	fmt.Printf("BOUNDED-CASES %d\n", applied)
+	fmt.Printf("HB-STATS integrity cases=%d corrupted=%d seed=%d\n", cases, applied, seed)
+	if fails > 0 {
+		t.Fatalf("%d discrepancies", fails)
+	}
+}
